@@ -3,4 +3,4 @@ From Tink Require Import XBase Untrusted.
 Require Import ExtrOcamlBasic.
 Extraction "m.ml" xb_add xb_mul xb_div_eucl
   decode_keyset decode_encrypted read read_proto read_no_secrets handle_no_secrets
-  read_encrypted any_unmodelled prim_ok out_prefix usable.
+  read_encrypted any_unmodelled prim_ok out_prefix shown_prefix shown_req usable.
